@@ -11,6 +11,34 @@ def write_cfg(path, lo, hi, step, dump):
     open(path, 'w').write("SPECIFICATION Spec\nCONSTANTS YearLo = %d\n YearHi = %d\n YearStep = %d\n DumpOn = %s\nINVARIANT DefIsRight\nINVARIANT AdmittedAgree\nINVARIANT SpillRejected\nINVARIANT Dump\nCHECK_DEADLOCK FALSE\n" % (lo, hi, step, 'TRUE' if dump else 'FALSE'))
 
 
+def spill_source():
+    """zones whose policies use day expressions that leave their month: `Fri<=1` (the last days of the month before) and
+    `Sun>=28` (the first days of the month after), as the DST-start or as the DST-end rule, with every weekday; rules end in
+    2036 (zic's POSIX footer cannot express a spilling form; the last rule is a return to standard time)"""
+    lines = []
+    forms = [('Apr', 'Fri<=1', True), ('Sep', 'Sun>=28', False), ('Mar', 'Sat<=2', True), ('Feb', 'Sun>=25', True), ('Jun', 'Mon>=29', False),
+             ('May', 'Thu<=3', True), ('Nov', 'Sun>=27', False), ('Aug', 'Wed<=4', False), ('Apr', 'Tue>=28', True), ('Oct', 'Sun<=5', False),
+             ('Feb', 'Sat>=24', True), ('Sep', 'Mon<=6', False)]
+    mon = ['Jan', 'Feb', 'Mar', 'Apr', 'May', 'Jun', 'Jul', 'Aug', 'Sep', 'Oct', 'Nov', 'Dec']
+    offs = ['2:00', '-5:00', '9:30', '-3:30', '0:00', '5:45']
+    for k, (m, on, is_start) in enumerate(forms):
+        pol = 'SP%02d' % k
+        other = mon[(mon.index(m) + 6) % 12]
+        a = ('Rule\t%s\t1995\t2036\t-\t%s\t%s\t2:00\t%s\t%s' % (pol, m, on, '1:00' if is_start else '0', 'D' if is_start else 'S'))
+        b = ('Rule\t%s\t1995\t2036\t-\t%s\tlastSun\t2:00\t%s\t%s' % (pol, other, '0' if is_start else '1:00', 'S' if is_start else 'D'))
+        # (the return to standard time must be the later rule of 2036)
+        first_is_dst = is_start
+        ma, mb = mon.index(m), mon.index(other)
+        if (first_is_dst and ma > mb) or (not first_is_dst and ma < mb):
+            # the DST-start rule comes later in the year than the DST-end rule (southern pattern): end the start rule a year earlier
+            if is_start:
+                a = a.replace('\t2036\t', '\t2035\t')
+            else:
+                b = b.replace('\t2036\t', '\t2035\t')
+        lines += [a, b, 'Zone\tTest/Spill_%02d\t%s\t%s\tT%%sT' % (k, offs[k % len(offs)], pol)]
+    return lines
+
+
 def run(tier):
     chk = common.Check('C18', tier, LEVEL)
     work = common.scratch('C18')
@@ -118,7 +146,13 @@ def run(tier):
             elif not spills and kept and day != d.day:
                 chk.violation('python:until-filter:wrong-day', 'UNTIL %d month %d dow %d dom %d resolved to day %s, the calendar says %s' % (y, m, dow, dom, day, d), {'zone': zn})
         chk.add(python_rows=p['n'], on_strings_parsed=p['nparse'], rejection_filter_expressions=p['nexpr'], calc_contract_rows=ncon, until_filter_cases=nun)
-    chk.add(states=r.distinct + r2.distinct, transitions=r.generated + r2.generated, traces_validated_against_impl=ncpp,
+    # 5. the resolved (month, day) *as the processors use it*: a source whose rules resolve into the neighbouring month in
+    # most years, through the real compiler (both scopes, both targets), the generated C++ tables read by the real processors
+    # and bound to BasicProc.tla / ExtProc.tla, the traces judged by TzSem.tla (zic validating) -- the path of C03
+    from .C03 import check_source
+    sp, sdis, sst, strn, _res = check_source(chk, 'spill', spill_source(), tier, start=2000, until=2038)
+    chk.add(spill_programs=sp, spill_zones_judged=sdis)
+    chk.add(states=r.distinct + r2.distinct + sst, transitions=r.generated + r2.generated + strn, traces_validated_against_impl=ncpp,
             cpp_cases=ncpp, tlc_table_rows=len(spec), exhaustive=(tier == 'thorough'),
             rule='TLC over years 1873..2126 (step %d) x 12 months x 7 weekdays x every day-of-month expression: definition right, admitted => C++ = Python = definition, spill => rejected; the real calcStartDayOfMonth on the whole admitted space, equal to the TLC table on every 11th year and to the real calc_day_of_month on every row; the real _parse_on_day_string on the ON grammar; the real rejection filter on all 12x7x62 expressions' % (3 if tier == 'quick' else 1))
     chk.sample({'tlc_row': rows[1000], 'meaning': '[year, month, dow, dom, resolved y, m, d, admitted]'})
